@@ -746,6 +746,40 @@ let run_typeof payload =
      | TUnk -> L [A "unmodelled"])
   | _ -> failwith "typeof payload"
 
+(* ---- entity / entity-map JSON on trees (Impl/EntityJson.v) ---- *)
+let sx_of_store (m : ((Model.z list * Model.z list) * entity) list) : Sexp.t =
+  let uid_sx (t, i) = L [A "e"; A (atom_of_str t); A (atom_of_str i)] in
+  let ents = List.map (fun (u, e) ->
+      let ps = List.sort compare (List.map (fun p -> to_string (uid_sx p)) e.e_parents) in
+      to_string (L [A "ent"; uid_sx u; L (A "parents" :: List.map parse ps);
+                    L (A "attrs" :: List.map (fun (k, x) -> L [A (atom_of_str k); sx_of_value x]) e.e_attrs);
+                    L (A "tags" :: List.map (fun (k, x) -> L [A (atom_of_str k); sx_of_value x]) e.e_tags);
+                    L [A "inner"; uid_sx u]])) m in
+  L (A "store" :: List.map parse (List.sort compare ents))
+
+let run_ejsonenc payload =
+  match payload with
+  | [store; L (A "keys" :: keys)] ->
+    let table = List.map (function L [u; A key] -> (uid_of_sx u, str_of_atom key) | _ -> failwith "ukey") keys in
+    let ukey u = (match List.assoc_opt u table with Some k -> k | None -> failwith "ukey: uid without a key") in
+    (* the parents of a Go entity are a SET: the generator may list one twice *)
+    let rec dedup = function [] -> [] | x :: r -> x :: dedup (List.filter (fun y -> y <> x) r) in
+    let st = List.map (fun (u, e) -> (u, { e with e_parents = dedup e.e_parents })) (store_of_sx store) in
+    (* ... and so are the keys of the map: a later entity with the same uid replaces the earlier one *)
+    let rec last_wins = function [] -> [] | (u, e) :: r -> if List.exists (fun (u2, _) -> u2 = u) r then last_wins r else (u, e) :: last_wins r in
+    L [A "tree"; sx_of_json (enc_entity_map print_ip (fun l -> l) ukey (last_wins st))]
+  | _ -> failwith "ejsonenc payload"
+
+let run_ejsondec payload =
+  match payload with
+  | [t] ->
+    (match dec_entity_map (json_of_sx t) with
+     | DOk m -> L [A "ok"; sx_of_store m]
+     | DErr -> L [A "err"]
+     | DUnk -> L [A "unmodelled"]
+     | DFuel -> L [A "out-of-fuel"])
+  | _ -> failwith "ejsondec payload"
+
 (* ---- vverdict: Validator.Policy accept / reject (Impl/ValidatePolicy.v) ---- *)
 let run_vverdict payload =
   match payload with
@@ -768,6 +802,8 @@ let run_vverdict payload =
 let run_case kind payload =
   match kind with
   | "vverdict" -> run_vverdict payload
+  | "ejsonenc" -> run_ejsonenc payload
+  | "ejsondec" -> run_ejsondec payload
   | "typeof" -> run_typeof payload
   | "sjsonenc" -> run_sjsonenc payload
   | "sjsondec" -> run_sjsondec payload
